@@ -256,8 +256,9 @@ class AutoSerialize:
             print(f"Warning: appending .zip to path '{path}'")
             path += ".zip"
 
-        # Handle overwrite vs. write protection
-        if os.path.exists(path):
+        # Handle overwrite vs. write protection (lexists: a dangling symlink is an existing target too;
+        # writing "through" it would create a file at another path)
+        if os.path.lexists(path):
             if mode == "o":
                 if os.path.isdir(path):
                     shutil.rmtree(path)
